@@ -117,9 +117,21 @@ def judge_case(mod, case, obs):
     return v
 
 
-def _worker_init(bins, run_dir, hangs=None):
-    global _CTX, _HANGS
+# Fail-fast budget: a tree that breaks the property on very many inputs (or on inputs that each take minutes, e.g. a vanity
+# search that can no longer match) is reported after this many violating cases / seconds spent in violating cases per shard,
+# instead of after hours. Violations listed as open known findings never count, so the unchanged tree is explored in full.
+MAX_VIOL_CASES_PER_SHARD = 60
+MAX_VIOL_WALL_PER_SHARD = 90.0
+_STOP = None
+_KNOWN_OPEN = frozenset()
+
+
+def _worker_init(bins, run_dir, hangs=None, stop=None, known_open=()):
+    global _CTX, _HANGS, _STOP, _KNOWN_OPEN
     _HANGS = hangs
+    _STOP = stop
+    _KNOWN_OPEN = frozenset(known_open)
+    core.STOP = stop
     _CTX = Ctx(bins, run_dir)
     import atexit
     atexit.register(_CTX.close)
@@ -148,7 +160,13 @@ def _run_shard(args):
             res["wall"] = 0.0
             return res
 
+        if _STOP is not None and _STOP.value:
+            res["buckets"]["shard-skipped-after-enough-violations-in-this-run"] += 1
+            res["wall"] = 0.0
+            return res
+
         hangs = [0]
+        vbudget = [0, 0.0]
 
         def flush():
             if not chunk:
@@ -168,6 +186,9 @@ def _run_shard(args):
                     res["buckets"][b] += 1
                 if v.nontrivial:
                     res["distinct"].add(core.h16([case["j"], case["steps"]]))
+                if any(sig not in _KNOWN_OPEN for sig, _ in v.viol):
+                    vbudget[0] += 1
+                    vbudget[1] += sum(float(o.get("wall") or 0.0) for o in obs)
                 for sig, msg in v.viol:
                     res["vcount"][sig] += 1
                     if res["vcount"][sig] <= 2:
@@ -184,6 +205,15 @@ def _run_shard(args):
                 flush()
             if hangs[0] >= 3:
                 res["buckets"]["shard-stopped-after-3-hangs"] += 1
+                break
+            if vbudget[0] >= MAX_VIOL_CASES_PER_SHARD or vbudget[1] >= MAX_VIOL_WALL_PER_SHARD:
+                res["buckets"]["shard-stopped-after-enough-violations"] += 1
+                if _STOP is not None:
+                    _STOP.value = 1
+                break
+            if _STOP is not None and _STOP.value:
+                res["buckets"]["shard-stopped-after-enough-violations-in-this-run"] += 1
+                del chunk[:]
                 break
         flush()
         if shard.get("exhaustive"):
@@ -257,14 +287,17 @@ def run(prop, tier="quick", seed=0, replay=None, jobs=None):
         results = []
         mp = multiprocessing.get_context("fork")
         hang_counter = mp.Value("i", 0)
-        with mp.Pool(min(jobs, max(1, len(shards))), _worker_init, (bins, run_dir, hang_counter)) as pool:
+        stop = mp.Value("i", 0)
+        known_open = [f["signature"] for f in load_known() if f.get("property") == pid and f.get("status") == "open"]
+        with mp.Pool(min(jobs, max(1, len(shards))), _worker_init, (bins, run_dir, hang_counter, stop, known_open)) as pool:
             for r in pool.imap_unordered(_run_shard, [(modname, s, tier, seed) for s in shards]):
                 results.append(r)
 
         extra = {}
         extra_viol = []
         errors = [r["error"] for r in results if r["error"]]
-        if hasattr(mod, "extra_phases") and not errors:
+        core.STOP = None
+        if hasattr(mod, "extra_phases") and not errors and not stop.value:
             try:
                 ctx = Ctx(bins, run_dir)
                 extra, extra_viol = mod.extra_phases(ctx, tier, seed)
